@@ -92,6 +92,18 @@ def rule_fft(rep, sm):
                     for z in walk(r):
                         if z.get("k") == "index" and z["e"].get("k") == "index" and is_path(z["e"]["e"], "sinc") and nbit(z["e"]["i"]) == "i:0" and is_path(z["i"], names[0]):
                             placed = True
+                    # zipped form: for (f, s) in filter_t.iter_mut().zip(sinc[0].iter()) { *f = *s / .. } - element n of the row goes to element n of the block
+                    it_ = x["iter"]
+                    if it_.get("k") == "mcall" and it_["name"] == "zip" and it_["args"]:
+                        src_ = it_["args"][0]
+                        while src_.get("k") == "mcall" and src_["name"] in ("iter", "take", "copied", "cloned"):
+                            src_ = src_["recv"]
+                        dst_ = it_["recv"]
+                        while dst_.get("k") == "mcall" and dst_["name"] in ("iter_mut", "take"):
+                            dst_ = dst_["recv"]
+                        if src_.get("k") == "index" and is_path(src_["e"], "sinc") and nbit(src_["i"]) == "i:0" and dst_.get("k") == "path" \
+                                and y["l"].get("k") == "un" and is_path(y["l"]["e"], names[0]) and any(is_path(q, names[1]) for q in walk(y["r"])):
+                            placed = True
     rep.ob(R, "FftResampler/filter-placement", ok_ms and placed, "filter = make_sincs(fft_size_in, 1, ..)[0] copied tap-for-tap to the start of the FFT block (centre at fft_size_in/2)", loc(cfn))
     NP = sm["alg"].sym(sm["params"][0])
     F = sm["alg"].sym(sm["params"][1])
